@@ -164,6 +164,10 @@ def check(an: Analysis) -> None:
         if not (isinstance(v, ast.Call) and an.callee(upd, v) == prog.cls("context.state.ScopeState").qualname):
             ob.fail(upd, r.ast, "a non-empty update does not produce a new ScopeState object (the shared one is reused)")
 
+    # ------------------------------------------------------------------ C03.7 the variables a task inherits are only ever re-bound (set/reset with tokens), never mutated in place
+    _borrowed_c02(an)
+
+
 
 def _derivation_sites(an: Analysis, ob) -> None:
     prog = an.prog
@@ -193,3 +197,10 @@ def liveness(fixtures: str) -> list[dict]:
     if len(gw) < 3:
         raise AnalysisError(f"rule C03.4 fires {len(gw)} times on its fixture, expected >= 3")
     return [{"rule": "C03.4", "fixture": "fixtures/c03_globals", "matches": len(gw)}, *c01.liveness(fixtures)]
+
+
+def _borrowed_c02(an: Analysis) -> None:
+    from ..engine import borrow
+    from . import c02
+
+    borrow(an, c02.check, {"C02.1": "C03.7"})
